@@ -40,6 +40,7 @@ type Pkg struct {
 	Tags   []string
 	Ignore bool // ignoreCrossplaneConstraints
 	Cur    int
+	Manual bool // revisionActivationPolicy: Manual
 }
 
 // Mode selects which oracles a run evaluates.
@@ -148,6 +149,11 @@ func Run(s *sim.Sim, res *runner.Result, mode Mode) {
 	for i := 0; i < nPkg; i++ {
 		kind := PkgKinds[t.Next(3)]
 		p := &Pkg{Kind: kind, Name: fmt.Sprintf("pkg%d", i), Repo: fmt.Sprintf("acme/pkg%d", i), Tags: []string{"v1.0.0", "v1.1.0"}, Ignore: t.Next(3) == 0}
+		if mode.C16 {
+			// manual activation: new revisions start inactive and establish
+			// ownership only, until the user activates one
+			p.Manual = t.Next(3) == 0
+		}
 		for _, tag := range p.Tags {
 			spec := drawSpec(t, kind, p.Name, mode.C15)
 			if err := w.Publish(p.Repo, tag, spec); err != nil {
@@ -185,6 +191,9 @@ func Run(s *sim.Sim, res *runner.Result, mode Mode) {
 			}
 			pk.SetSkipDependencyResolution(ptr.To(true))
 			pk.SetRevisionHistoryLimit(ptr.To(int64(2)))
+			if p.Manual {
+				pk.SetActivationPolicy(ptr.To(pkgv1.ManualActivation))
+			}
 		}); err != nil {
 			res.Trouble = "install package: " + err.Error()
 			return
@@ -231,6 +240,12 @@ func Run(s *sim.Sim, res *runner.Result, mode Mode) {
 				acts = append(acts, sim.Action{Key: "the API server starts/stops rejecting " + r.rejectName, Weight: 1, Run: r.toggleReject})
 			}
 			acts = append(acts, sim.Action{Key: "somebody deletes a package CRD", Weight: 1, Run: func() { r.deleteObjectOutOfBand(t) }})
+			for _, p := range r.pkgs {
+				if p.Manual {
+					p := p
+					acts = append(acts, sim.Action{Key: "user activates a revision of " + p.Name, Weight: 3, Run: func() { r.activateOne(p, t) }})
+				}
+			}
 			for _, k := range w.Store.GCCandidates() {
 				k := k
 				acts = append(acts, sim.Action{Key: "k8s-gc " + k.String(), Weight: 6, Run: func() { w.Store.GCStep(k) }})
@@ -460,6 +475,20 @@ func (r *run) onLog(e *simapi.LogEntry) {
 		}
 		w.S.Probe("establish-write")
 	}
+	if r.mode.C16 && e.Before != nil && e.After != nil && e.Changed {
+		// an object another package's revision controls is neither modified nor taken over
+		if _, ckind, cname := controllerOf(e.Before); revisionKind(ckind) {
+			other := ""
+			for _, k := range PkgKinds {
+				if m := w.Store.Peek(simapi.ObjKey{Group: RevGK[k].Group, Kind: RevGK[k].Kind, Name: cname}); m != nil {
+					other = (&unstructured.Unstructured{Object: m}).GetLabels()[pkgv1.LabelParentPackage]
+				}
+			}
+			if other != "" && other != p.Name && maskPlainOwners(e.Before) != maskPlainOwners(e.After) {
+				w.S.Violate("C16/modified-object-of-another-package", fmt.Sprintf("revision %s (package %s) committed %s on %s, which revision %s of package %s controls", revName, p.Name, e.Verb, id, cname, other))
+			}
+		}
+	}
 	if r.mode.C16 && e.Verb == "create" {
 		// only an active revision creates objects (judged on what the reconcile
 		// read: the revision's desiredState at its own Get)
@@ -467,6 +496,17 @@ func (r *run) onLog(e *simapi.LogEntry) {
 			w.S.Violate("C16/inactive-revision-created-object", fmt.Sprintf("revision %s (desiredState %s) created %s", revName, st, id))
 		}
 	}
+}
+
+// objectRefsRead returns how many status.objectRefs the revision had when the task read it (-1: not read).
+func (r *run) objectRefsRead(taskID int, revName string) int {
+	for i := len(r.w.Store.Log) - 1; i >= 0; i-- {
+		l := r.w.Store.Log[i]
+		if l.TaskID == taskID && l.Read && l.Verb == "get" && l.Key.Name == revName && revisionKind(l.Key.Kind) && l.After != nil {
+			return len(objectRefs(l.After))
+		}
+	}
+	return -1
 }
 
 func (r *run) desiredStateRead(taskID int, revName string) string {
@@ -720,6 +760,35 @@ func (r *run) setupC16(t *sim.Tape) {
 	}
 }
 
+// activateOne: with manual activation the user makes one revision of the
+// package active (and the others inactive).
+func (r *run) activateOne(p *Pkg, t *sim.Tape) {
+	w := r.w
+	ctx := context.Background()
+	var revs []simapi.ObjKey
+	for _, k := range w.Store.KeysOf(RevGK[p.Kind]) {
+		if (&unstructured.Unstructured{Object: w.Store.Peek(k)}).GetLabels()[pkgv1.LabelParentPackage] == p.Name {
+			revs = append(revs, k)
+		}
+	}
+	if len(revs) == 0 {
+		return
+	}
+	pick := revs[t.Next(len(revs))]
+	for _, k := range revs {
+		u := &unstructured.Unstructured{Object: runtime.DeepCopyJSON(w.Store.Peek(k))}
+		want := "Inactive"
+		if k == pick {
+			want = "Active"
+		}
+		if s, _, _ := unstructured.NestedString(u.Object, "spec", "desiredState"); s != want {
+			_ = unstructured.SetNestedField(u.Object, want, "spec", "desiredState")
+			_ = w.Direct.Update(ctx, u)
+		}
+	}
+	w.S.Probe("revision-activated-by-user")
+}
+
 // toggleReject: the API server starts or stops rejecting writes of one object
 // (an admission webhook being installed or removed).
 func (r *run) toggleReject() {
@@ -813,7 +882,9 @@ func (r *run) judgeC16(revName, kind string, rev map[string]any, sp Spec, p *Pkg
 	blocked := ""
 	for _, k := range sp.ObjectKeys() {
 		parts := strings.SplitN(k, "/", 2)
-		if r.foreign[k] {
+		// (an inactive revision only adds itself as a plain owner: another
+		// owner's control does not stand in its way)
+		if r.foreign[k] && r.desiredStateRead(t.ID, revName) == "Active" {
 			if m := r.obj(parts[0], parts[1]); m != nil {
 				if uid, _, _ := controllerOf(m); uid == "stranger-uid" {
 					blocked = k + " is controlled by another owner"
@@ -821,11 +892,19 @@ func (r *run) judgeC16(revName, kind string, rev map[string]any, sp Spec, p *Pkg
 			}
 		}
 		if parts[1] == r.rejectName && r.rejectName != "" && r.rejectOn && len(mine) > 0 && r.rejectSeq <= mine[0].Seq {
-			blocked = k + " is rejected by the API server"
+			// an inactive revision writes only objects that exist (it never creates):
+			// a rejection of an absent object is never put to the test
+			if r.desiredStateRead(t.ID, revName) == "Active" || w.Store.StateAt(mine[0].Seq, simapi.ObjKey{Group: kindGroup[parts[0]], Kind: parts[0], Name: parts[1]}) != nil {
+				blocked = k + " is rejected by the API server"
+			}
 		}
 	}
 	state := r.desiredStateRead(t.ID, revName)
-	if blocked != "" && state == "Active" {
+	// an inactive revision that already recorded its objects does not establish:
+	// it releases control object by object (retried until done), which is not
+	// what the all-or-nothing clause is about
+	establishes := state == "Active" || (state == "Inactive" && r.objectRefsRead(t.ID, revName) == 0)
+	if blocked != "" && establishes {
 		for _, e := range mine {
 			if e.Read || e.DryRun || e.Injected != "" || !pkgObjectKind(e.Key.Kind) || e.Err != nil {
 				continue
